@@ -2,10 +2,25 @@ package main
 
 // Harness A: all timed request histories up to a depth, sequentially, against a two-sided
 // reference model (must-admit / must-reject / unspecified).
+//
+// A history is a list of operations (requests, clock ticks). Besides the plain base family the
+// enumerator (main.go) runs families that vary one more dimension each:
+//   - handler behaviours: the protected handler answers by returning an error (the status is only
+//     written by the application's error handler after the middleware chain unwound),
+//   - requests that Config.Next lets bypass the limiter,
+//   - a limit that MaxFunc takes from the individual request (same key, different limits),
+//   - overlapping requests: the following k operations (ticks and whole requests) happen while the
+//     handler of one request is still running, so that its completion (the post-hoc give-back of a
+//     skipped request) meets a window that other requests have rolled meanwhile,
+//   - a KeyGenerator that returns the header value as fiber hands it out (not copied) while all
+//     requests of the history arrive on one reused fasthttp.RequestCtx.
 
 import (
+	"errors"
 	"fmt"
+	"net"
 	"strconv"
+	"strings"
 	"time"
 
 	"github.com/gofiber/fiber/v3"
@@ -23,18 +38,43 @@ const T0 = 1_900_000_000
 type hop struct {
 	Kind   string // "req" | "tick"
 	Key    string
-	Status int // downstream status
+	Status int // status the client finally sees when the request reaches the handler
 	Slow   int // seconds the downstream handler takes (virtual)
 	Tick   int
+	How    string // "" = c.SendStatus(Status) | "err" = return fiber.NewError(Status) | "plainerr" = return errors.New(..) (error handler answers 500)
+	Bypass bool   // Config.Next returns true for this request
+	Max    int    // limit MaxFunc returns for THIS request (Limit=func-req)
+	Defer  int    // the following Defer operations happen while this request's handler is running
+	Times  int    // >1: the request is sent that many times in a row (expanded by resolve)
+	AtW    bool   // tick: the length is the configuration's window length + Off (resolved by resolve)
+	Off    int
 }
 
 func (o hop) String() string {
 	if o.Kind == "tick" {
+		if o.AtW {
+			return fmt.Sprintf("tick+W%+d", o.Off)
+		}
 		return fmt.Sprintf("tick+%d", o.Tick)
 	}
 	s := fmt.Sprintf("%s/%d", o.Key, o.Status)
+	if o.Times > 1 {
+		s += fmt.Sprintf("x%d", o.Times)
+	}
 	if o.Slow > 0 {
 		s += fmt.Sprintf("/slow%d", o.Slow)
+	}
+	if o.How != "" {
+		s += "/" + o.How
+	}
+	if o.Bypass {
+		s += "/bypass"
+	}
+	if o.Max > 0 {
+		s += fmt.Sprintf("@%d", o.Max)
+	}
+	if o.Defer > 0 {
+		s += fmt.Sprintf("[during-handler:next%d]", o.Defer)
 	}
 	return s
 }
@@ -43,36 +83,113 @@ type hcfg struct {
 	Algo    string // fixed | sliding
 	Storage string // memory | injected
 	Skip    string // none | failed | successful
-	Limit   string // static2 | func-a1-b3 | func0
+	Limit   string // static2 | func-a1-b3 | func0 | func-req
+	Key     string `json:",omitempty"` // "" = KeyGenerator copies the header value | raw = returns it as fiber hands it out
+	Next    bool   `json:",omitempty"` // Config.Next set (true for requests marked bypass)
+	// Dflt names the Config fields left at their zero value: max (Max, MaxFunc -> documented 5), exp (Expiration ->
+	// documented 1 minute), keygen (KeyGenerator -> c.IP(), the keys are peer addresses), all (everything; limiter.New()
+	// without argument where nothing else is configured); exp3 = Expiration 3 s spelled out. Explicit: the same values spelled out.
+	Dflt     string `json:",omitempty"`
+	Explicit bool   `json:",omitempty"`
 }
 
-// ttlStorage is an injected fiber.Storage with TTLs on the harness clock.
+func (c hcfg) defaulted(field string) bool {
+	return !c.Explicit && (c.Dflt == "all" || c.Dflt == field)
+}
+
+// window is the window length in seconds the documentation promises for the configuration.
+func (c hcfg) window() int {
+	switch c.Dflt {
+	case "all", "exp":
+		return 60
+	case "exp3":
+		return 3
+	}
+	return W
+}
+
+// resolve expands repeated requests and window-relative ticks of a history for configuration c.
+func resolve(c hcfg, ops []hop) []hop {
+	var out []hop
+	for _, o := range ops {
+		if o.Kind == "tick" && o.AtW {
+			o.Tick, o.AtW = c.window()+o.Off, false
+		}
+		n := 1
+		if o.Kind == "req" && o.Times > 1 {
+			n, o.Times = o.Times, 0
+		}
+		for ; n > 0; n-- {
+			out = append(out, o)
+		}
+	}
+	return out
+}
+
+func (c hcfg) tag() string {
+	t := fmt.Sprintf("algo=%s storage=%s skip=%s limit=%s", c.Algo, c.Storage, c.Skip, c.Limit)
+	if c.Key != "" {
+		t += " keygen=" + c.Key
+	}
+	if c.Dflt != "" {
+		t += " config=" + c.Dflt
+		if c.Explicit {
+			t += "-spelled-out"
+		}
+	}
+	return t
+}
+
+// ttlStorage is an injected fiber.Storage with TTLs on the harness clock. Like the map based
+// storages of the ecosystem it keeps the key string it is given; entries are searched by key
+// bytes in insertion order, so that its behaviour does not depend on a map hash seed even when a
+// caller hands it a key whose bytes change later.
 type ttlStorage struct {
-	data map[string]ttlEntry
+	ents []ttlEntry
 }
 type ttlEntry struct {
+	key string
 	val []byte
 	exp uint32
 }
 
+func (s *ttlStorage) find(key string) int {
+	for i := range s.ents {
+		if s.ents[i].key == key {
+			return i
+		}
+	}
+	return -1
+}
+
 func (s *ttlStorage) Get(key string) ([]byte, error) {
-	e, ok := s.data[key]
-	if !ok || (e.exp != 0 && e.exp <= utils.Timestamp()) {
+	i := s.find(key)
+	if i < 0 || (s.ents[i].exp != 0 && s.ents[i].exp <= utils.Timestamp()) {
 		return nil, nil
 	}
-	return append([]byte(nil), e.val...), nil
+	return append([]byte(nil), s.ents[i].val...), nil
 }
 func (s *ttlStorage) Set(key string, val []byte, ttl time.Duration) error {
 	var exp uint32
 	if ttl > 0 {
 		exp = uint32(ttl.Seconds()) + utils.Timestamp()
 	}
-	s.data[key] = ttlEntry{append([]byte(nil), val...), exp}
+	e := ttlEntry{key, append([]byte(nil), val...), exp}
+	if i := s.find(key); i >= 0 {
+		s.ents[i] = e
+	} else {
+		s.ents = append(s.ents, e)
+	}
 	return nil
 }
-func (s *ttlStorage) Delete(key string) error { delete(s.data, key); return nil }
-func (s *ttlStorage) Reset() error            { s.data = map[string]ttlEntry{}; return nil }
-func (s *ttlStorage) Close() error            { return nil }
+func (s *ttlStorage) Delete(key string) error {
+	if i := s.find(key); i >= 0 {
+		s.ents = append(s.ents[:i], s.ents[i+1:]...)
+	}
+	return nil
+}
+func (s *ttlStorage) Reset() error { s.ents = nil; return nil }
+func (s *ttlStorage) Close() error { return nil }
 
 // window model, kept twice: "all" counts every arrival (pessimistic budget), "adm" counts
 // only requests that reached the handler and were not skipped (optimistic budget).
@@ -83,6 +200,7 @@ type wstate struct {
 
 type model struct {
 	algo     string
+	w        int // window length in seconds
 	all, adm map[string]*wstate
 }
 
@@ -90,16 +208,16 @@ func (m *model) roll(ws *wstate, ts int) {
 	if m.algo == "fixed" {
 		if ws.exp == 0 || ts >= ws.exp {
 			ws.curr, ws.prev = 0, 0
-			ws.exp = ts + W
+			ws.exp = ts + m.w
 		}
 		return
 	}
 	switch {
-	case ws.exp == 0 || ts >= ws.exp+W:
-		ws.prev, ws.curr, ws.exp = 0, 0, ts+W
+	case ws.exp == 0 || ts >= ws.exp+m.w:
+		ws.prev, ws.curr, ws.exp = 0, 0, ts+m.w
 	case ts >= ws.exp:
 		ws.prev, ws.curr = ws.curr, 0
-		ws.exp += W
+		ws.exp += m.w
 	}
 }
 
@@ -107,8 +225,20 @@ func (m *model) rate(ws *wstate, ts int) int {
 	if m.algo == "fixed" {
 		return ws.curr
 	}
-	weight := float64(ws.exp-ts) / float64(W)
+	weight := float64(ws.exp-ts) / float64(m.w)
 	return int(float64(ws.prev)*weight) + ws.curr
+}
+
+// uncount removes one hit from the window the request was counted in, identified by that
+// window's end. While the request was in flight other arrivals may have rolled the window: the
+// hit then sits in the previous window (sliding) or is gone with its window.
+func (m *model) uncount(ws *wstate, admExp int) {
+	switch {
+	case ws.exp == admExp:
+		ws.curr--
+	case m.algo == "sliding" && ws.exp == admExp+m.w:
+		ws.prev--
+	}
 }
 
 func get(mm map[string]*wstate, k string) *wstate {
@@ -127,157 +257,489 @@ type stepObs struct {
 	Remaining string
 }
 
-func limitFor(l string, key string) int {
+func limitFor(l string, op hop) int {
 	switch l {
+	case "default5":
+		return 5
 	case "static2":
 		return 2
 	case "func0":
 		return 0
+	case "func-req":
+		return op.Max
 	}
-	if key == "a" {
+	if op.Key == "a" {
 		return 1
 	}
 	return 3
 }
 
-func runHistory(c hcfg, ops []hop, l *core.Local, h *fasthttp.RequestCtx) {
-	now := T0
-	utils.VerifSetTimestamp(uint32(now))
-	cfg := limiter.Config{
-		Expiration:   W * time.Second,
-		KeyGenerator: func(c fiber.Ctx) string { return utils.CopyString(c.Get("X-Key")) },
+var peers = map[string]net.Addr{"a": fx.TCP("10.0.0.1", 40001), "b": fx.TCP("10.0.0.2", 40002)}
+
+// ctxPair holds the reused fasthttp contexts of a worker: a for requests of the history proper,
+// b for requests that arrive while another one is in flight. nil = a fresh context per request.
+type ctxPair struct{ a, b fasthttp.RequestCtx }
+
+type pendingViol struct {
+	class, shape, what string
+	step               int
+	cs, o, x           any
+}
+
+type hrun struct {
+	c       hcfg
+	cfg     limiter.Config
+	ops     []hop
+	l       *core.Local
+	ctxs    *ctxPair
+	handler fasthttp.RequestHandler
+	m       *model
+	trace   []stepObs
+	now     int
+	ran     []bool
+	inner   func()
+	hi      int // operations started so far
+	w       int // window length of the configuration
+	tag     string
+	viols   []pendingViol
+	collect bool
+}
+
+func (r *hrun) setClock() { utils.VerifSetTimestamp(uint32(r.now)) }
+
+// violate reports a violation of class `class` at operation `step`; shape ("" = none) is the
+// history-shape qualifier of the signature.
+func (r *hrun) violate(class, shape string, step int, what string, cs, o, x any) {
+	if r.collect {
+		r.viols = append(r.viols, pendingViol{class, shape, what, step, cs, o, x})
+		return
+	}
+	r.l.Violate(sigOf(class, r.tag, shape), what, cs, o, x)
+}
+
+func sigOf(class, tag, shape string) string {
+	s := class + " " + tag
+	if shape != "" {
+		s += " " + shape
+	}
+	return s
+}
+
+func seqOf(c fiber.Ctx) int {
+	i, _ := strconv.Atoi(c.Get("X-Seq"))
+	return i
+}
+
+// runHistory runs one history on a fresh app. A history that uses added dimensions and violates
+// is run again with one dimension switched off at a time (handlers write their status themselves;
+// exempted requests taken out; no overlap; one limit per key; fresh request contexts), then with all of them off: a
+// violation that vanishes gets ONE signature per class and configuration, `... only-with=<dimension>`
+// without the history shape; a violation that stays keeps the ordinary signature.
+func runHistory(c hcfg, ops []hop, l *core.Local, ctxs *ctxPair) {
+	const (
+		dErr = iota
+		dNext
+		dOverlap
+		dLimit
+		dCtx
+		dDflt
+		nDims
+	)
+	names := [nDims]string{"handler-returns-error", "next-exempted-request", "overlapping-requests", "limit-differs-between-requests-of-a-key", "reused-ctx", "config-fields-left-unset"}
+	var has [nDims]bool
+	firstMax := map[string]int{}
+	for _, o := range ops {
+		if o.Kind == "req" && c.Limit == "func-req" {
+			if m, ok := firstMax[o.Key]; !ok {
+				firstMax[o.Key] = o.Max
+			} else if m != o.Max {
+				has[dLimit] = true
+			}
+		}
+		has[dErr] = has[dErr] || o.How != ""
+		has[dNext] = has[dNext] || (o.Bypass && c.Next)
+		has[dOverlap] = has[dOverlap] || o.Defer > 0
+	}
+	has[dCtx] = c.Key == "raw" && ctxs != nil
+	has[dDflt] = c.Dflt != "" && c.Dflt != "exp3" && !c.Explicit
+	extra := false
+	for _, h := range has {
+		extra = extra || h
+	}
+	if !extra {
+		runHistoryOn(c, ops, l, ctxs, false, true)
+		return
+	}
+	r := runHistoryOn(c, ops, l, ctxs, true, true)
+	if len(r.viols) == 0 {
+		return
+	}
+	// classes still violated when the dimensions in `off` are switched off
+	without := func(off [nDims]bool) map[string]bool {
+		var v []hop
+		for _, o := range ops {
+			if off[dErr] {
+				o.How = ""
+			}
+			if off[dOverlap] {
+				o.Defer = 0
+			}
+			if off[dLimit] && o.Kind == "req" {
+				o.Max = firstMax[o.Key] // every request of a key asks for the limit of the key's first request
+			}
+			if off[dNext] && o.Bypass && c.Next {
+				continue // exempted requests must not influence anybody
+			}
+			v = append(v, o)
+		}
+		if off[dNext] {
+			// an overlap must not reach beyond the shortened history
+			for i := range v {
+				if i+v[i].Defer >= len(v) {
+					v[i].Defer = len(v) - 1 - i
+				}
+			}
+		}
+		vc := ctxs
+		if off[dCtx] {
+			vc = nil
+		}
+		cc := c
+		if off[dDflt] {
+			cc.Explicit = true // the documented defaults spelled out
+		}
+		out := map[string]bool{}
+		for _, x := range runHistoryOn(cc, v, l, vc, true, false).viols {
+			out[x.class] = true
+		}
+		return out
+	}
+	label := map[string]string{}
+	n := 0
+	for d := 0; d < nDims; d++ {
+		if !has[d] {
+			continue
+		}
+		n++
+		var off [nDims]bool
+		off[d] = true
+		stays := without(off)
+		for _, v := range r.viols {
+			if !stays[v.class] && label[v.class] == "" {
+				label[v.class] = names[d]
+			}
+		}
+	}
+	if n > 1 {
+		stays := without(has)
+		var all []string
+		for d := 0; d < nDims; d++ {
+			if has[d] {
+				all = append(all, names[d])
+			}
+		}
+		for _, v := range r.viols {
+			if !stays[v.class] && label[v.class] == "" {
+				label[v.class] = strings.Join(all, "+")
+			}
+		}
+	}
+	for _, v := range r.viols {
+		if lb := label[v.class]; lb != "" {
+			// the limit option does not matter for a defect bound to the dimension: not part of the signature
+			tag := fmt.Sprintf("algo=%s storage=%s skip=%s", c.Algo, c.Storage, c.Skip)
+			if c.Key != "" {
+				tag += " keygen=" + c.Key
+			}
+			if c.Dflt != "" {
+				tag += " config=" + c.Dflt
+			}
+			l.Violate(sigOf(v.class, tag, "only-with="+lb), v.what, v.cs, v.o, v.x)
+		} else {
+			l.Violate(sigOf(v.class, r.tag, v.shape), v.what, v.cs, v.o, v.x)
+		}
+	}
+}
+
+func runHistoryOn(c hcfg, ops []hop, l *core.Local, ctxs *ctxPair, collect, record bool) *hrun {
+	r := &hrun{c: c, ops: ops, l: l, ctxs: ctxs, now: T0, ran: make([]bool, len(ops)), tag: c.tag(), collect: collect}
+	if !record {
+		r.l = core.NewLocal() // counters and outcomes of the classification re-run are dropped
+	}
+	r.setClock()
+	r.w = c.window()
+	var cfg limiter.Config
+	if !c.defaulted("exp") {
+		cfg.Expiration = time.Duration(r.w) * time.Second
+	}
+	switch {
+	case c.defaulted("keygen"):
+		// c.IP(): the requests of key a / b come from two peers
+	case c.Dflt == "all" || c.Dflt == "keygen":
+		cfg.KeyGenerator = func(c fiber.Ctx) string { return c.IP() }
+	case c.Key == "raw":
+		// the spelling of the middleware's documentation: the value is only valid during the request
+		cfg.KeyGenerator = func(c fiber.Ctx) string { return c.Get("X-Key") }
+	default:
+		cfg.KeyGenerator = func(c fiber.Ctx) string { return utils.CopyString(c.Get("X-Key")) }
 	}
 	switch c.Limit {
 	case "static2":
 		cfg.Max = 2
+	case "default5":
+		if !c.defaulted("max") {
+			cfg.Max = 5
+		}
 	default:
 		cfg.Max = 5 // deliberately different from what MaxFunc returns
 		lim := c.Limit
-		cfg.MaxFunc = func(c fiber.Ctx) int { return limitFor(lim, c.Get("X-Key")) }
+		cfg.MaxFunc = func(c fiber.Ctx) int { return limitFor(lim, r.ops[seqOf(c)]) }
 	}
 	if c.Algo == "sliding" {
 		cfg.LimiterMiddleware = limiter.SlidingWindow{}
 	}
 	if c.Storage == "injected" {
-		cfg.Storage = &ttlStorage{data: map[string]ttlEntry{}}
+		cfg.Storage = &ttlStorage{}
+	}
+	if c.Next {
+		cfg.Next = func(c fiber.Ctx) bool { return r.ops[seqOf(c)].Bypass }
 	}
 	cfg.SkipFailedRequests = c.Skip == "failed"
 	cfg.SkipSuccessfulRequests = c.Skip == "successful"
+	r.cfg = cfg
 	app := fiber.New()
-	app.Use(limiter.New(cfg))
-	ran := false
+	if c.defaulted("all") && c.Algo == "fixed" && c.Storage == "memory" && c.Skip == "none" && !c.Next {
+		app.Use(limiter.New()) // nothing configured at all
+	} else {
+		app.Use(limiter.New(cfg))
+	}
 	app.Get("/", func(c fiber.Ctx) error {
-		ran = true
-		if s, _ := strconv.Atoi(c.Get("X-Slow")); s > 0 {
-			now += s
-			utils.VerifSetTimestamp(uint32(now))
+		i := seqOf(c)
+		op := r.ops[i]
+		r.ran[i] = true
+		if op.Slow > 0 {
+			r.now += op.Slow
+			r.setClock()
 		}
-		st, _ := strconv.Atoi(c.Get("X-Status"))
-		return c.SendStatus(st)
+		if f := r.inner; f != nil {
+			// the following operations happen while this handler is running
+			r.inner = nil
+			f()
+		}
+		switch op.How {
+		case "err":
+			return fiber.NewError(op.Status, "failed")
+		case "plainerr":
+			return errors.New("failed")
+		}
+		return c.SendStatus(op.Status)
 	})
-	handler := app.Handler()
-	m := &model{algo: c.Algo, all: map[string]*wstate{}, adm: map[string]*wstate{}}
-	var trace []stepObs
-	for i, op := range ops {
-		if op.Kind == "tick" {
-			now += op.Tick
-			utils.VerifSetTimestamp(uint32(now))
-			trace = append(trace, stepObs{Op: op.String()})
-			continue
-		}
-		L := limitFor(c.Limit, op.Key)
-		ts := now
-		req := fx.Req("GET", "http://x.test/", "X-Key", op.Key, "X-Status", strconv.Itoa(op.Status), "X-Slow", strconv.Itoa(op.Slow))
-		ran = false
-		fx.CallInto(h, handler, req, nil, false)
-		o := stepObs{Op: op.String(), Status: h.Response.StatusCode(), Ran: ran,
-			Retry: string(h.Response.Header.Peek("Retry-After")), Limit: string(h.Response.Header.Peek("X-RateLimit-Limit")),
-			Remaining: string(h.Response.Header.Peek("X-RateLimit-Remaining"))}
-		trace = append(trace, o)
-		l.Add("transitions", 1)
-		cs := func() any {
-			var s []string
-			for _, x := range ops[:i+1] {
-				s = append(s, x.String())
+	r.handler = app.Handler()
+	r.m = &model{algo: c.Algo, w: r.w, all: map[string]*wstate{}, adm: map[string]*wstate{}}
+	for i := 0; i < len(ops); {
+		i = r.step(i, 0)
+	}
+	r.l.Add("histories", 1)
+	if len(ops) > 0 {
+		r.l.Sample(fmt.Sprint(c, ops))
+	}
+	return r
+}
+
+// callRecovering serves one request and returns the panic text, if any.
+func callRecovering(h *fasthttp.RequestCtx, handler fasthttp.RequestHandler, req *fasthttp.Request, peer net.Addr) (panicked string) {
+	defer func() {
+		if p := recover(); p != nil {
+			panicked = fmt.Sprint(p)
+			if len(panicked) > 120 {
+				panicked = panicked[:120]
 			}
-			return map[string]any{"config": c, "ops": s, "trace": trace}
 		}
-		tag := fmt.Sprintf("algo=%s storage=%s skip=%s limit=%s", c.Algo, c.Storage, c.Skip, c.Limit)
-		if L == 0 {
-			// unlimited: must pass through untouched
-			if !ran {
-				l.Violate("unlimited-rejected "+tag, "MaxFunc returned 0 (unlimited) but the request was rejected", cs(), o, nil)
-			}
-			l.Outcome("unlimited ran=" + strconv.FormatBool(ran))
-			continue
-		}
-		all, adm := get(m.all, op.Key), get(m.adm, op.Key)
+	}()
+	fx.CallInto(h, handler, req, peer, false)
+	return ""
+}
+
+func (r *hrun) ctxFor(level int) *fasthttp.RequestCtx {
+	switch {
+	case r.ctxs == nil:
+		return &fasthttp.RequestCtx{}
+	case level == 0:
+		return &r.ctxs.a
+	}
+	return &r.ctxs.b
+}
+
+// step executes operation i (and, for a request with Defer>0, the following operations inside
+// its handler) and returns the index of the next operation of the enclosing sequence.
+func (r *hrun) step(i, level int) int {
+	op := r.ops[i]
+	if i+1 > r.hi {
+		r.hi = i + 1
+	}
+	if op.Kind == "tick" {
+		r.now += op.Tick
+		r.setClock()
+		r.trace = append(r.trace, stepObs{Op: op.String()})
+		return i + 1
+	}
+	c, l, m := r.c, r.l, r.m
+	next := i + 1 + op.Defer
+	if next > len(r.ops) {
+		next = len(r.ops)
+	}
+	L := limitFor(c.Limit, op)
+	ts := r.now
+	bypass := c.Next && op.Bypass
+	limited := !bypass && L != 0
+	willSkip := (r.cfg.SkipFailedRequests && op.Status >= 400) || (r.cfg.SkipSuccessfulRequests && op.Status < 400)
+	var all, adm *wstate
+	var mustAdmit, mustReject bool
+	var wantRetry, admExp int
+	if limited {
+		// the arrival is booked before the call: operations inside the handler see it in flight
+		all, adm = get(m.all, op.Key), get(m.adm, op.Key)
 		m.roll(all, ts)
 		m.roll(adm, ts)
 		all.curr++
 		adm.curr++
-		mustAdmit := m.rate(all, ts) <= L
-		mustReject := m.rate(adm, ts) > L
-		admExp := adm.exp
+		mustAdmit = m.rate(all, ts) <= L
+		mustReject = m.rate(adm, ts) > L
+		wantRetry = all.exp - ts
+		admExp = all.exp
+		if willSkip {
+			// optimistic budget: a hit that is going to be given back never counts against others;
+			// the pessimistic budget keeps it until the request completes
+			adm.curr--
+		}
+	}
+	if next > i+1 {
+		r.inner = func() {
+			for j := i + 1; j < next; {
+				j = r.step(j, level+1)
+			}
+		}
+	}
+	req := fx.Req("GET", "http://x.test/", "X-Key", op.Key, "X-Seq", strconv.Itoa(i))
+	h := r.ctxFor(level)
+	var peer net.Addr
+	if c.Dflt == "all" || c.Dflt == "keygen" {
+		peer = peers[op.Key]
+	}
+	panicked := callRecovering(h, r.handler, req, peer)
+	ran := r.ran[i]
+	o := stepObs{Op: op.String(), Status: h.Response.StatusCode(), Ran: ran,
+		Retry: string(h.Response.Header.Peek("Retry-After")), Limit: string(h.Response.Header.Peek("X-RateLimit-Limit")),
+		Remaining: string(h.Response.Header.Peek("X-RateLimit-Remaining"))}
+	r.trace = append(r.trace, o)
+	l.Add("transitions", 1)
+	if ran && o.Status != op.Status {
+		l.Add("downstream_status_differs", 1)
+	}
+	hi := r.hi
+	if panicked != "" {
+		var s []string
+		for _, x := range r.ops[:hi] {
+			s = append(s, x.String())
+		}
+		r.violate("request-panicked", "", i, "serving the request panicked (fasthttp does not recover: the process dies)",
+			map[string]any{"config": c, "ops": s, "trace": append([]stepObs(nil), r.trace...)}, panicked, "the request is served")
+		// nothing else is judged for this request; for the model it did not reach the handler
+		if limited && !ran && !willSkip {
+			adm.curr--
+		}
+		l.Outcome("request panicked")
+		if f := r.inner; f != nil {
+			r.inner = nil
+			f()
+		}
+		return next
+	}
+	cs := func() any {
+		var s []string
+		for _, x := range r.ops[:hi] {
+			s = append(s, x.String())
+		}
+		return map[string]any{"config": c, "ops": s, "trace": append([]stepObs(nil), r.trace...)}
+	}
+	switch {
+	case bypass:
+		if !ran {
+			r.violate("bypassed-request-rejected", "", i, "Config.Next returned true for the request but it did not reach the handler", cs(), o, "handler runs")
+		}
+		l.Outcome("bypass ran=" + strconv.FormatBool(ran))
+	case L == 0:
+		// unlimited: must pass through untouched
+		if !ran {
+			r.violate("unlimited-rejected", "", i, "MaxFunc returned 0 (unlimited) but the request was rejected", cs(), o, nil)
+		}
+		l.Outcome("unlimited ran=" + strconv.FormatBool(ran))
+	default:
 		skipped := false
 		if ran {
-			skipped = (cfg.SkipFailedRequests && op.Status >= 400) || (cfg.SkipSuccessfulRequests && op.Status < 400)
+			skipped = willSkip
 			if skipped {
 				// un-count in the window it was admitted to (it may have rolled meanwhile)
-				uncount(m, all, now)
-				uncount(m, adm, now)
+				m.uncount(all, admExp)
 			}
-		} else {
-			adm.curr-- // did not reach the handler: not an admitted hit
+		} else if !willSkip {
+			adm.curr-- // did not reach the handler: not an admitted hit (nothing happened meanwhile)
 		}
-		_ = admExp
 		class := "admit"
 		if !ran {
 			class = "reject"
 		}
+		sh := shape(r.ops[:hi], r.w)
 		switch {
 		case mustAdmit && !ran:
-			l.Violate("rejected-with-budget "+tag+" "+shape(ops[:i+1]), "request rejected although even the pessimistic count (all arrivals) leaves budget", cs(), o, "handler runs")
+			r.violate("rejected-with-budget", sh, i, "request rejected although even the pessimistic count (all arrivals) leaves budget", cs(), o, "handler runs")
 		case mustReject && ran:
-			l.Violate("over-admitted "+tag+" "+shape(ops[:i+1]), "request reached the handler although the hits that reached the handler already exhaust the limit", cs(), o, "429")
+			r.violate("over-admitted", sh, i, "request reached the handler although the hits that reached the handler already exhaust the limit", cs(), o, "429")
 		case !mustAdmit && !mustReject:
 			l.Add("unspecified_skipped", 1)
 			class += "(unspecified)"
 		}
 		if !ran {
 			if o.Status != 429 {
-				l.Violate("reject-status "+tag, "rejected request without 429", cs(), o, 429)
+				r.violate("reject-status", "", i, "rejected request without 429", cs(), o, 429)
 			}
-			want := strconv.Itoa(all.exp - ts)
+			want := strconv.Itoa(wantRetry)
 			if o.Retry != want {
-				l.Violate("retry-after "+tag, "Retry-After differs from the time until the window resets", cs(), o, want)
+				r.violate("retry-after", "", i, "Retry-After differs from the time until the window resets", cs(), o, want)
 			}
 		} else if o.Limit != strconv.Itoa(L) {
-			l.Violate("limit-header "+tag, "X-RateLimit-Limit is not the limit MaxFunc returned for this request", cs(), o, L)
+			r.violate("limit-header", "", i, "X-RateLimit-Limit is not the limit MaxFunc returned for this request", cs(), o, L)
 		}
-		l.Outcome(fmt.Sprintf("%s %s skip=%v", c.Algo, class, skipped))
+		flight := ""
+		if level > 0 {
+			flight = " during-another-request"
+		}
+		l.Outcome(fmt.Sprintf("%s %s skip=%v%s", c.Algo, class, skipped, flight))
 	}
-	l.Add("histories", 1)
-	if len(ops) > 0 {
-		l.Sample(fmt.Sprint(c, ops))
+	if f := r.inner; f != nil {
+		// the request never reached its handler: the following operations simply come after it
+		r.inner = nil
+		if next > i+1 {
+			f()
+		}
 	}
+	return next
 }
 
-// uncount removes one hit from the window the request was admitted to. In a sequential
-// history nothing arrived since the admission, so the model's window state is still the
-// admission window (it only rolls on arrivals): decrementing curr is exact even when the
-// slow handler moved the clock past the window end.
-func uncount(_ *model, ws *wstate, _ int) { ws.curr-- }
-
 // shape summarises an op list for signatures: op kinds only, so that one root cause = one signature family.
-func shape(ops []hop) string {
+func shape(ops []hop, w int) string {
 	s := ""
-	for _, o := range ops {
+	closeAt := -1
+	for i, o := range ops {
 		switch {
-		case o.Kind == "tick" && o.Tick < W:
+		case o.Kind == "tick" && o.Tick < w:
 			s += "t"
 		case o.Kind == "tick":
 			s += "T"
+		case o.Bypass:
+			s += "n"
+		case o.How != "":
+			s += "e"
 		case o.Slow > 0 && o.Status >= 400:
 			s += "F"
 		case o.Slow > 0:
@@ -287,14 +749,25 @@ func shape(ops []hop) string {
 		default:
 			s += "r"
 		}
+		if o.Kind == "req" && o.Defer > 0 {
+			s += "("
+			closeAt = i + o.Defer
+		}
+		if i == closeAt {
+			s += ")"
+			closeAt = -1
+		}
+	}
+	if closeAt >= 0 {
+		s += ")"
 	}
 	// collapse runs so that families of histories with one root cause share a signature
-	out := ""
+	var out strings.Builder
 	for i := 0; i < len(s); i++ {
-		if i > 0 && s[i] == s[i-1] {
+		if i > 0 && s[i] == s[i-1] && s[i] != '(' && s[i] != ')' {
 			continue
 		}
-		out += string(s[i])
+		out.WriteByte(s[i])
 	}
-	return "shape=" + out
+	return "shape=" + out.String()
 }
